@@ -55,6 +55,7 @@ func (r *Run) Sharded(n int, fn func(i int) ShardResult) (totals map[string]int,
 			_ = enc.Encode(res)
 			w.Flush()
 		}
+		RunCleanup()
 		os.Exit(0)
 	}
 	workers := runtime.NumCPU()
